@@ -11,11 +11,11 @@ from superrec2.utils.range_min_query import RangeMinQuery
 PROP = "C17"
 LEVEL = "exploration"
 RULE = (
-    "every rooted plane tree of any arity (unary nodes included) with <= N nodes (N = 8 quick, 10 thorough), built as an "
+    "every rooted plane tree of any arity (unary nodes included) with <= N nodes (N = 9 quick, 11 thorough), built as an "
     "ete3 tree through the API; every node, ordered pair and ordered triple of nodes (repetitions included): lca(*nodes), "
     "is_ancestor_of, is_strict_ancestor_of, is_comparable, level, distance against parent-chain definitions. "
-    "RangeMinQuery: every array of length 1..L over {0,1,2} (L = 10 quick, 12 thorough) and every (start, stop) in "
-    "[0..len]^2 (empty and reversed ranges included). Edit histories: for every plane tree with <= 6 (7) nodes a structure is "
+    "RangeMinQuery: every array of length 1..L over {0,1,2} (L = 11 quick, 13 thorough) and every (start, stop) in "
+    "[0..len]^2 (empty and reversed ranges included). Edit histories: for every plane tree with <= 7 (8) nodes a structure is "
     "built and queried, then the same ete3 tree object is edited in place (every subtree move, every leaf addition, every "
     "leaf removal) and a second structure built on it must answer every node / pair query for the new topology. Non-trivial: a tree query whose arguments are pairwise distinct "
     "and incomparable, or a range query of length >= 2 whose minimum is not at either end."
@@ -26,18 +26,18 @@ BUDGET = {"quick": 200, "thorough": 1800}
 
 def plan(tier, seed):
     out = []
-    maxn = 8 if tier == "quick" else 10
+    maxn = 9 if tier == "quick" else 11
     for n in range(1, maxn + 1):
         shapes = list(plane_trees(n))
         for i in range(0, len(shapes), 8):
             out.append({"slice": f"trees<= {maxn} nodes", "mode": "tree", "shapes": shapes[i:i + 8]})
     # operation histories: structure built, tree edited in place (every subtree move, leaf addition, leaf removal), rebuilt
-    maxe = 6 if tier == "quick" else 7
+    maxe = 7 if tier == "quick" else 8
     for n in range(2, maxe + 1):
         shapes = list(plane_trees(n))
         for i in range(0, len(shapes), 4):
             out.append({"slice": f"edited trees<= {maxe} nodes", "mode": "edit", "shapes": shapes[i:i + 4]})
-    maxl = 10 if tier == "quick" else 12
+    maxl = 11 if tier == "quick" else 13
     for length in range(1, maxl + 1):
         for first in range(3):
             for second in (range(3) if length >= 8 else [None]):
@@ -177,7 +177,7 @@ def run_shard(shard, tier, seed):
                 except Exception as exc:
                     bad, n, k = (f"exception {type(exc).__name__}: {exc}\n{traceback.format_exc(limit=4)}", None), 1, 0
                 n_eval += n
-                nt += n
+                nt += k
                 if bad:
                     vtotal += 1
                     if len(viols) < 4:
